@@ -61,9 +61,10 @@ def main():
                 c = conns[fd]
                 try:
                     res = c.recv()
-                except EOFError:
+                except (EOFError, OSError):
                     res = {'job': busy[fd], 'result': None, 'harness_error': 'zygote died', 'exit': {}, 'timed_out': False}
                     del busy[fd]
+                    conns.pop(fd, None)
                     emit(res)
                     continue
                 del busy[fd]
